@@ -25,6 +25,7 @@ VALS = {2: [1.5, -0.25, 153.0, 0.0], 7: [1e-3, 2.5, -1e300, 0.0], 12: [-128, 5, 
         21: [(1987, 0, 4, 19, 21, 20, 15, 620), (2021, 2, 12, 31, 23, 59, 59, 999)], 23: [(1, 0, b'CH1'), (300, 2, b'')],
         24: [(b'CHANNEL', (1, 0, b'X')), (b'', (0, 0, b'Y'))], 26: [0, 1], 27: [b'm/s', b'', b'0.1 in']}
 CODES = sorted(VALS)
+COUNTS = [1, 2, 3, 0, 1, 2, 3, 0, 1, 2, 130, 300]
 
 
 def norm_value(rc, v):
@@ -58,7 +59,7 @@ def concretize(st, rot, rng):
     out = GL.set_component(b'VERIF-SET', rng.choice([None, b'SETNAME', b'']), role=rng.choice(['SET', 'SET', 'RDSET', 'RSET']))
     for c, ta in enumerate(st['tmpl']):
         has = set(ta['has'])
-        count = rng.choice([1, 2, 3, 0]) if 'C' in has else None
+        count = rng.choice(COUNTS) if 'C' in has else None       # (counts are UVARIs: 130 and 300 need two bytes)
         rc = rot.code() if 'R' in has else None
         units = rng.choice([b'm', b'ft/s', b'']) if 'U' in has else None
         erc, ecnt = (rc if rc is not None else 19), (count if count is not None else 1)
@@ -80,7 +81,7 @@ def concretize(st, rot, rng):
                 erow.append(dict(kind='absent'))
                 continue
             has = set(cell['has'])
-            count = rng.choice([1, 2, 3, 0]) if 'C' in has else None
+            count = rng.choice(COUNTS) if 'C' in has else None
             rc = rot.code() if 'R' in has else None
             units = rng.choice([b'kg', b'', b'us/ft']) if 'U' in has else None
             erc = rc if rc is not None else tc['rc']
